@@ -427,6 +427,35 @@ func ruleMapRange(c *Ctx) []Obligation {
 				blocks = append(blocks, b)
 			}
 			sort.Slice(blocks, func(i, j int) bool { return blocks[i].Index < blocks[j].Index })
+			// "the first entry that matches": a value of the current entry that leaves the loop through a
+			// return or a break — unless the match is an equality with the range key (at most one entry)
+			derived := func(v ssa.Value) bool { return derivedFromEntry(v, ml, 0) }
+			for _, b := range blocks {
+				if ret, ok := b.Instrs[len(b.Instrs)-1].(*ssa.Return); ok && !underKeyEquality(b, ml) {
+					for _, res := range ret.Results {
+						if derived(res) {
+							report(ret.Pos(), "returns a value of the entry found first", "which of several matching entries is found first depends on map iteration order (%s)", a.Desc(res))
+							break
+						}
+					}
+				}
+				for _, sb := range b.Succs {
+					if ml.blocks[sb] || sb == ml.header {
+						continue
+					}
+					for _, in := range sb.Instrs {
+						phi, ok := in.(*ssa.Phi)
+						if !ok {
+							break
+						}
+						for i, pb := range sb.Preds {
+							if pb == b && i < len(phi.Edges) && derived(phi.Edges[i]) && !underKeyEquality(b, ml) {
+								report(phi.Pos(), "keeps a value of the entry found first ("+phi.Comment+")", "which of several matching entries is found first depends on map iteration order")
+							}
+						}
+					}
+				}
+			}
 			for _, b := range blocks {
 				for _, in := range b.Instrs {
 					switch x := in.(type) {
@@ -1544,4 +1573,71 @@ func allocParam(al *ssa.Alloc) *ssa.Parameter {
 		return p
 	}
 	return nil
+}
+
+// derivedFromEntry: v is computed from the key or the value of the current iteration of ml.
+func derivedFromEntry(v ssa.Value, ml *mapLoop, depth int) bool {
+	if v == nil || depth > 6 {
+		return false
+	}
+	if v == ml.key || v == ml.val || v == ssa.Value(ml.next) {
+		return true
+	}
+	in, ok := v.(ssa.Instruction)
+	if !ok || in.Block() == nil || !(ml.blocks[in.Block()] || in.Block() == ml.header) {
+		return false
+	}
+	switch x := v.(type) {
+	case *ssa.Extract:
+		return derivedFromEntry(x.Tuple, ml, depth+1)
+	case *ssa.Field:
+		return derivedFromEntry(x.X, ml, depth+1)
+	case *ssa.FieldAddr:
+		return derivedFromEntry(x.X, ml, depth+1)
+	case *ssa.UnOp:
+		return derivedFromEntry(x.X, ml, depth+1)
+	case *ssa.MakeInterface:
+		return derivedFromEntry(x.X, ml, depth+1)
+	case *ssa.ChangeType:
+		return derivedFromEntry(x.X, ml, depth+1)
+	case *ssa.Convert:
+		return derivedFromEntry(x.X, ml, depth+1)
+	case *ssa.Index:
+		return derivedFromEntry(x.X, ml, depth+1)
+	case *ssa.IndexAddr:
+		return derivedFromEntry(x.X, ml, depth+1)
+	case *ssa.Phi:
+		for _, e := range x.Edges {
+			if derivedFromEntry(e, ml, depth+1) {
+				return true
+			}
+		}
+	}
+	return false
+}
+
+// underKeyEquality: block b of the loop body is reached only through the true edge of a test
+// `key == x` of the range key (a map has at most one entry per key, so at most one iteration gets here).
+func underKeyEquality(b *ssa.BasicBlock, ml *mapLoop) bool {
+	for d := b; d != nil && (ml.blocks[d] || d == ml.header); d = d.Idom() {
+		id := d.Idom()
+		if id == nil || len(id.Instrs) == 0 {
+			continue
+		}
+		ifi, ok := id.Instrs[len(id.Instrs)-1].(*ssa.If)
+		if !ok || len(id.Succs) != 2 {
+			continue
+		}
+		bo, ok := ifi.Cond.(*ssa.BinOp)
+		if !ok || bo.Op != token.EQL {
+			continue
+		}
+		if stripConv(bo.X) != ml.key && stripConv(bo.Y) != ml.key {
+			continue
+		}
+		if id.Succs[0] == d || id.Succs[0].Dominates(d) {
+			return true
+		}
+	}
+	return false
 }
